@@ -54,8 +54,8 @@ def reg(pid, category, text, note, technique, engine):
 
 reg('C18', 'model_checking',
     'All interleavings, at lock/condition/shared-container granularity, of '
-    'the real CommandManager/Controller code for 12 single-interface and 12 '
-    'two-interface (2 three-interface in thorough) driver programs, '
+    'the real CommandManager/Controller code for 13 single-interface and 13 '
+    'two-interface (2 three-interface in thorough) driver programs (incl. two clients that meet at a barrier while the solver is paused, and a result collected while another task is outstanding), '
     'exhaustively up to 2 (quick) / 3 (thorough) preemptions, with deadlock, '
     'lost-wake-up, exactly-once, result-delivery and no-progress-while-paused '
     'oracles evaluated on every execution. A coverage statement, not a '
@@ -73,9 +73,9 @@ reg('C18', 'model_checking',
 
 reg('C06', 'model_checking',
     'Explicit-state breadth-first search over all histories of <=3 (quick) / '
-    '<=4 (thorough) operations from a 53-operation alphabet (add/remove/'
+    '<=4 (thorough) operations from a 56-operation alphabet (add/remove/'
     'extract/append/extend/resize, add/remove property and constant, retag+'
-    'align, set_tag, clone, ensure/copy properties, pickle...) on real '
+    'align, set_tag, clone, shallow copy, re-declared defaults, ensure/copy properties, pickle...; every derived array is overwritten after it was compared) on real '
     'ParticleArray objects (two interacting arrays, every C type, strided '
     'properties), states deduplicated on the complete public implementation '
     'state, a record-list reference model compared after every transition. '
@@ -221,7 +221,7 @@ reg('C11', 'exploration',
 
 
 reg('C07', 'model_checking',
-    'Explicit enumeration on the real DomainManager: boxes of two widths '
+    'Explicit enumeration on the real DomainManager: cubic boxes of two widths and a 2 x 1.25 x 1.5 box '
     '(the narrow one puts a particle into both ghost layers), every '
     'assignment of {periodic, mirror, none} to the axes in 1-3 D, n_layers '
     '{1,2}, 1-3 particles on a lattice containing points outside the box, '
@@ -357,7 +357,7 @@ reg('C03', 'model_checking',
     'after 1, 2, 4, never, condition true/false/time dependent, pre, post, '
     'update_nnps - of a three-equation group followed by a '
     'neighbour-dependent probe group; two-group programs over all '
-    'destination/source wirings of three arrays; every deviated group placed between plain groups that use the same arrays and destinations; groups and sub-groups sharing an explicit name; equation classes that inherit every hook and converged(); sub-groups with their own '
+    'destination/source wirings of three arrays; every deviated group placed between plain groups that use the same arrays and destinations; groups and sub-groups sharing an explicit name; equation classes that inherit every hook and converged(); destinations that read what an earlier destination of the group wrote; equations that grow h before update_nnps; the second evaluation runs on the same particles with other tags (other real counts); sub-groups with their own '
     'flags inside eight kinds of parents (plain, pre+post, condition, '
     'update_nnps, iterated, and combinations of those).',
     'Trusted: the reference interpreter (the model of the documented '
@@ -427,7 +427,7 @@ reg('C05', 'exploration',
 
 
 reg('C09', 'exploration',
-    'Each pair-symmetric momentum equation shipped (15 classes, with the '
+    'Each pair-symmetric momentum equation shipped (16 classes, with the '
     'variants of their flags) x every kernel x dims 1-3 x one array / two '
     'mutually interacting arrays x enumerated small placements (incl. '
     'pairs only one of whose smoothing lengths reaches, coincident pairs '
@@ -455,7 +455,7 @@ reg('C12', 'exploration',
     'distance 1 of the defaults the code is generated and compiled. Tier '
     'B: the default and every distance-1 deviation (incl. required numeric '
     'arguments nu/pb/alpha set to zero / non-zero) is compiled and run for '
-    'two steps; '
+    'two steps (quick also every pair of values of two enumerated options); '
     'all values must stay finite.',
     'Trusted: generic particle block and initial values for scheme '
     'specific properties (checks/c12_schemes.py). Scheme cases the generic '
@@ -475,7 +475,7 @@ reg('C14', 'model_checking',
     'values (and for order1 the gradient) at every target are compared '
     'with a direct NumPy evaluation of the defining sums over all source '
     'particles incl. periodic images; constant and (order1) linear fields '
-    'must be reproduced.',
+    'must be reproduced; the shepard and sph equations are also driven through SPHEvaluator (update_particle_arrays / update / evaluate histories); targets also as integer-typed coordinate arrays.',
     'Trusted: the NumPy reference sums; targets with a source exactly at '
     'the cut-off and ill-conditioned moment matrices (cond>1e6) are left '
     'open.',
@@ -526,7 +526,12 @@ def main():
         not_applicable=na,
         notes='Family: model checking / bounded exhaustive exploration. '
               'fix: commits in /repo are listed in known_findings.json '
-              '(status fixed).')
+              '(status fixed). Quick tier: run-time generated modules are '
+              'compiled with -O0; thorough tier of the checks that compile '
+              'generated code: wide enumeration at -O0, then the quick '
+              'enumeration again at compyle\'s -O3 (DESIGN.md section 8.6). '
+              '178 independently seeded property-breaking changes under '
+              'seeded/ (177 detected, table in DESIGN.md section 8.5).')
     out = os.path.join(V, 'MANIFEST.json')
     with open(out, 'w') as f:
         json.dump(man, f, indent=1)
